@@ -133,12 +133,21 @@ class Check:
     def add_candidate(self, c):
         v = c["v"]
         self.ncands += 1
-        sig = (c["oracle"], v.get("kind"), v.get("feature"), str(v.get("observed"))[:80] if v.get("kind", "").startswith(("parser-", "tokenizer-", "compile-")) else "")
+        # candidates explained by an open known finding are bucketed per finding: they must never crowd out an unlisted violation of the same kind
+        entry = next((e for e in self.known if finding_matches(e, self.pid, c)), None)
+        feats = v.get("features")
+        sig = (c["oracle"], v.get("kind"), v.get("feature"), str(v.get("observed"))[:80] if v.get("kind", "").startswith(("parser-", "tokenizer-", "compile-")) else "",
+               ",".join(map(str, feats)) if isinstance(feats, list) else "", entry["id"] if entry else "")
         lst = self.cands.setdefault(sig, [])
         if len(lst) < 4:
             lst.append(c)
 
     def run(self, name, harness, bound, wall=None, max_paths=None, step_budget=4000, path_wall=30.0, chunk=150, vacuity=("ok",)):
+        if not self.quick:
+            # the thorough tier is sized by total wall time: one exploration gets at most VERIF_THOROUGH_CAP seconds (default 300);
+            # an exploration stopped by its budget is recorded as exhaustive:false, never as success of the part it did not reach
+            cap = float(os.environ.get("VERIF_THOROUGH_CAP", "300"))
+            wall = cap if wall is None else min(wall, cap)
         res = core.explore(harness, on_record=self.on_record, nproc=self.nproc, wall=wall, max_paths=max_paths,
                            step_budget=step_budget, path_wall=path_wall, chunk=chunk)
         d = res.as_dict()
